@@ -285,6 +285,14 @@ func (p *Parser) parseVP8XChunks(buf []byte) error {
 		buf = buf[chunkTotal:]
 	}
 
+	if !isAnim && animChunks == 0 && len(p.frames) == 0 {
+		// A still image in extended format must carry an image chunk. Reaching
+		// the end of the data without one means the file was cut short (or is
+		// malformed); reporting features for it would disagree with the
+		// complete file.
+		return ErrTruncated
+	}
+
 	return nil
 }
 
